@@ -66,6 +66,28 @@ reg('C05', 'model_checking',
     'Trusted: refpgp.sig signer (Ed25519 through OpenSSL). Packets PGPy rejects at import are outside the property and are counted.',
     'exhaustive input enumeration + exhaustive single-bit fault enumeration on the real parser/verifier', 'DESIGN.md 2/C05')
 
+reg('C03', 'model_checking',
+    'Full product cipher (9) x recipient kind (RSA 1024/2048/3072, ECDH on 5 curves, RSA encryption subkey under a sign-only primary, passphrase) x body '
+    'class; body (11) x compression (4) x format (3) x file name (3); passphrase kinds x 7 S2K hashes; every ordered pair of 6 recipient kinds and every '
+    'ordering of (key, key, passphrase) triples with generated and supplied session keys; 0-2 signers; binary and armored transport. Every PGPy-made '
+    'message is decrypted by PGPy with each recipient and by an independent RFC 4880/6637 decryptor (plaintext packets must equal the export); the same '
+    'matrix plus foreign framings (old format, partial lengths, SKESK without session key, simple/salted/iterated S2K, marker packet, legacy tag 9) is '
+    'encrypted by the reference and must be decrypted by PGPy to the original.',
+    'Trusted: refpgp.enc/msg (validated at setup against GnuPG-made fixture messages, protected fixture keys and RFC 3394 vectors); OpenSSL ECDH scalar '
+    'multiplication and block primitives in ECB mode. Largest body 64 KiB in quick, 4 MiB in thorough.',
+    'exhaustive configuration enumeration on the real encrypt/decrypt paths, differential against an independent implementation', 'DESIGN.md 2/C03')
+
+reg('C04', 'fault_enumeration',
+    'Deviation-bounded fault enumeration on real integrity-protected messages: 0 faults (base must decrypt to the original) then every single fault of the '
+    'alphabet - every bit of the encrypted-data packet and of the session-key packets, truncation at every offset (re-framed and raw), extensions, every '
+    'block swap / drop / duplication, block-aligned splices and MDC transplants between two messages under one session key, version / tag changes, every '
+    'arrangement (<= 4) of the top-level packets, 12 wrong passphrases, every non-recipient key with and without rewritten recipient id - over cipher x '
+    'recipient x body bases (~4e4 decryptions). Outcome must be an exception, the original plaintext, or a refusal that hands back no plaintext.',
+    'RSA session-key packets: quick covers every bit of the fixed fields and of the first/last 8 octets of the integer, thorough every bit. Two messages '
+    'encrypted under one session key may be exchanged as wholes (inherent to OpenPGP). PGPKey.decrypt on an input without encrypted data returns the input '
+    'with a warning (tested API behaviour); that is classed as no-plaintext.',
+    'deviation-bounded exhaustive fault enumeration on the real decrypt paths', 'DESIGN.md 2/C04')
+
 ALL = ['C%02d' % i for i in range(1, 21)]
 
 NOT_YET = 'check not built yet in this revision of /verif (work in progress; see DESIGN.md section 8)'
